@@ -3,6 +3,7 @@ package ring
 import (
 	"fmt"
 	"sort"
+	"strings"
 	"time"
 
 	spec "go.miragespace.co/specter/spec/chord"
@@ -16,6 +17,11 @@ type SlotOp struct {
 	Gap  time.Duration `json:"gap"`
 	Kind string        `json:"kind"` // create | join | leave | crash
 	Via  int           `json:"via,omitempty"`
+	// Fault is armed on the simulated network immediately before the operation
+	// starts, so that it hits an RPC of this membership change
+	Fault *simnet.Targeted `json:"fault,omitempty"`
+	// the enumerated change of a C07 cell
+	Cell bool `json:"cell,omitempty"`
 }
 
 type NodeSpec struct {
@@ -330,7 +336,170 @@ func GenPlan(prop string, seed uint64, tier string) *Plan {
 			})
 		}
 	}
+	switch prop {
+	case "C07":
+		genC07(p, r, seed, hashes)
+	case "C08":
+		genC08(p, r, hashes)
+	case "C10":
+		genC10(p, r)
+	case "C19":
+		genC19(p, r)
+	}
 	p.FinalLookups = 16
 	sort.SliceStable(p.Faults, func(i, j int) bool { return p.Faults[i].Nth < p.Faults[j].Nth })
 	return p
+}
+
+// C07Cells enumerates scenario x RPC x fault mode x occurrence.
+func C07Cells() []string {
+	var cells []string
+	for _, sc := range []string{"join", "leave"} {
+		rpcs := []string{"RequestToJoin", "FinishJoin#1", "FinishJoin#2", "Import"}
+		if sc == "leave" {
+			rpcs = []string{"RequestToLeave", "FinishLeave#1", "FinishLeave#2", "Import"}
+		}
+		for _, m := range rpcs {
+			for _, mode := range []string{"reset", "drop-request", "drop-response", "delay"} {
+				for _, occ := range []string{"1st", "2nd"} {
+					if strings.Contains(m, "#") && occ == "2nd" {
+						continue
+					}
+					cells = append(cells, sc+"/"+m+"/"+mode+"/"+occ)
+				}
+			}
+		}
+	}
+	return cells
+}
+
+// genC07: a populated small ring, then exactly one membership change with one
+// targeted RPC fault (the cell is chosen by the seed, the schedule is random).
+func genC07(p *Plan, r *simrt.Rand, seed uint64, hashes []uint64) {
+	cells := C07Cells()
+	cell := cells[int(seed%uint64(len(cells)))]
+	p.Cell = cell
+	p.Profile = "faulted-change"
+	parts := strings.Split(cell, "/")
+	scenario, rpc, mode, occ := parts[0], parts[1], parts[2], parts[3]
+	n := 3 + r.Intn(2)
+	ids := genIDs(r, n+1, hashes)
+	p.Nodes = p.Nodes[:0]
+	for i := 0; i < n+1; i++ {
+		p.Nodes = append(p.Nodes, NodeSpec{ID: ids[i], Backend: "memory", NextIDs: []uint64{ids[i] ^ 0x5555}})
+	}
+	p.Stab, p.Fix, p.Pred = 2*time.Second, 5*time.Second, 7*time.Second
+	p.Net = simnet.Config{MinLatency: time.Millisecond, MaxLatency: 10 * time.Millisecond}
+	p.Sched.StallProb, p.Sched.VictimMod = 0, 0
+	p.Triggers = nil
+	p.Nodes[0].Ops = []SlotOp{{Kind: "create"}}
+	for i := 1; i < n; i++ {
+		p.Nodes[i].Ops = []SlotOp{{Gap: time.Duration(i) * 4 * p.Stab, Kind: "join", Via: 0}}
+	}
+	nth := 1
+	method := rpc
+	if i := strings.IndexByte(rpc, '#'); i >= 0 {
+		method = rpc[:i]
+		if rpc[i+1] == '2' {
+			nth = 2
+		}
+	} else if occ == "2nd" {
+		nth = 2
+	}
+	f := &simnet.Targeted{Method: method, Nth: nth}
+	switch mode {
+	case "reset":
+		f.Mode = simnet.FaultReset
+	case "drop-request":
+		f.Mode = simnet.FaultDropReq
+	case "drop-response":
+		f.Mode = simnet.FaultDropResp
+	case "delay":
+		f.Mode = simnet.FaultDelay
+		f.Delay = 12 * time.Second
+	}
+	changeAt := time.Duration(n)*4*p.Stab + 20*time.Second
+	if scenario == "join" {
+		p.Nodes[n].Ops = []SlotOp{{Gap: changeAt, Kind: "join", Via: r.Intn(n), Fault: f, Cell: true}}
+	} else {
+		v := 1 + r.Intn(n-1)
+		p.Nodes[v].Ops = append(p.Nodes[v].Ops, SlotOp{Gap: changeAt - p.Nodes[v].Ops[0].Gap, Kind: "leave", Fault: f, Cell: true})
+	}
+	// one client loads the ring before the change
+	cs := ClientSpec{Start: time.Duration(n)*4*p.Stab + 2*time.Second}
+	for k := range p.Keys {
+		cs.Ops = append(cs.Ops, COp{Gap: 50 * time.Millisecond, Kind: "put", Key: k, Entry: r.Intn(n), Retry: true})
+		cs.Ops = append(cs.Ops, COp{Gap: 50 * time.Millisecond, Kind: "pappend", Key: k, Arg: r.Intn(3), Entry: r.Intn(n), Retry: true})
+	}
+	p.Clients = []ClientSpec{cs}
+	p.Lookups = nil
+	p.MaxQuiet = 40
+}
+
+// genC08: no graceful leaves; nodes are crashed ungracefully so that their
+// successors drop the dead predecessor, and joins (including ids adjacent to
+// members and into a one-node ring) arrive at every member at random times.
+func genC08(p *Plan, r *simrt.Rand, hashes []uint64) {
+	p.Profile = "crash-then-join"
+	n := 1 + r.Intn(4)
+	extra := 2 + r.Intn(4)
+	ids := genIDs(r, n+extra, hashes)
+	p.Nodes = p.Nodes[:0]
+	for i := 0; i < n+extra; i++ {
+		p.Nodes = append(p.Nodes, NodeSpec{ID: ids[i], Backend: "memory", NextIDs: []uint64{ids[i] ^ 0x3333}})
+	}
+	p.Stab = pick(r, time.Second, 3*time.Second)
+	p.Fix = pick(r, 2*time.Second, 5*time.Second)
+	p.Pred = pick(r, time.Second, 3*time.Second)
+	p.Triggers, p.Clients, p.Lookups = nil, nil, nil
+	p.Nodes[0].Ops = []SlotOp{{Kind: "create"}}
+	for i := 1; i < n; i++ {
+		p.Nodes[i].Ops = []SlotOp{{Gap: time.Duration(i) * 2 * p.Stab, Kind: "join", Via: 0}}
+	}
+	base := time.Duration(n)*2*p.Stab + 4*p.Stab
+	// crash some members (never slot 0, which later joins are sent through)
+	for i := 1; i < n; i++ {
+		if r.Chance(0.6) {
+			p.Nodes[i].Ops = append(p.Nodes[i].Ops, SlotOp{Gap: base + time.Duration(r.Int63n(int64(4*p.Stab))), Kind: "crash"})
+		}
+	}
+	for i := n; i < n+extra; i++ {
+		// adjacent / equal ids on purpose
+		if r.Chance(0.3) {
+			p.Nodes[i].ID = (ids[r.Intn(n)] + pick(r, uint64(1), ringSize-1, 0)) % ringSize
+		}
+		p.Nodes[i].Ops = []SlotOp{{Gap: base + time.Duration(r.Int63n(int64(30*time.Second))), Kind: "join", Via: 0}}
+	}
+	p.MaxQuiet = 30
+}
+
+// genC10: a stable ring loaded with simple values, prefix children and held
+// leases under keys that are prefixes of one another.
+func genC10(p *Plan, r *simrt.Rand) {
+	p.Keys = []string{"k", "k/a", "k/a/b", "k/ab", "j", "j/", "k/", "zz/top"}
+	cs := ClientSpec{Start: time.Duration(len(p.Nodes)+2) * 4 * p.Stab}
+	for o := 0; o < 30+r.Intn(30); o++ {
+		op := COp{Gap: 20 * time.Millisecond, Key: r.Intn(len(p.Keys)), Entry: r.Intn(len(p.Nodes)), Retry: true, Arg: r.Intn(3)}
+		op.Kind = pick(r, "put", "put", "del", "pappend", "pappend", "premove", "acquire", "acquire", "release")
+		op.TTL = time.Hour
+		cs.Ops = append(cs.Ops, op)
+	}
+	p.Clients = []ClientSpec{cs}
+}
+
+// genC19: lease holders contend for a few lease keys through random entry
+// nodes while the ring changes.
+func genC19(p *Plan, r *simrt.Rand) {
+	nclients := 2 + r.Intn(3)
+	p.Clients = nil
+	for c := 0; c < nclients; c++ {
+		cs := ClientSpec{Start: time.Duration(r.Int63n(int64(3 * p.Stab)))}
+		for o := 0; o < 10+r.Intn(14); o++ {
+			op := COp{Gap: time.Duration(r.Int63n(int64(1500 * time.Millisecond))), Key: r.Intn(2), Entry: r.Intn(len(p.Nodes)), Retry: r.Chance(0.3)}
+			op.Kind = pick(r, "acquire", "acquire", "renew", "release", "release", "renew-stale", "release-stale")
+			op.TTL = pick(r, 400*time.Millisecond, 999*time.Millisecond, time.Second, 1500*time.Millisecond, 2*time.Second, 3*time.Second)
+			cs.Ops = append(cs.Ops, op)
+		}
+		p.Clients = append(p.Clients, cs)
+	}
 }
